@@ -1209,7 +1209,8 @@ class CircuitDAG(CircuitBase):
             op = copy.deepcopy(op)
             is_controlled = False
             if isinstance(op, ops.OneQubitGateWrapper):
-                op_type_seq = [type(gate) for gate in op.unwrap()]
+                # noise[i] belongs to operations[i] (the listed order, which unwrap() reverses)
+                op_type_seq = list(op.operations)
                 noise_list = self._find_wrapped_noise(
                     op_type_seq, noise_model_map[op.reg_type]
                 )
